@@ -18,12 +18,38 @@ from ..model import AnchorMissing, Model
 from ..report import AnalysisError, Report
 
 _BASE: Optional[Model] = None
+_SEEDED: Dict[str, Dict[str, str]] = {}
 
 
 def _one(args: Tuple[str, str, str, str, str, Optional[str]]) -> Dict[str, Any]:
     prop, vid, rel, old, new, expect = args
     base = _BASE
     assert base is not None
+    if rel == "<seeded-change>":
+        # old = name of the stored change; new unused; the override set was prepared by run_for
+        ov = _SEEDED.get(vid)
+        t0 = time.time()
+        if not ov:
+            return {"id": vid, "status": "stale", "why": "stored patch no longer applies"}
+        try:
+            import ast as _ast
+
+            for v in ov.values():
+                _ast.parse(v)
+            m = Model(root=base.root, overrides=ov, reuse=base)
+            rep = Report(prop, "thorough", quiet=True)
+            importlib.import_module(f"sa.rules.{prop.lower()}").run(m, rep)
+            rep.finish()
+            fired = sorted({i.rule for i in rep.violations})
+            err = None
+        except (AnchorMissing, AnalysisError) as e:
+            fired, err = [], f"analysis-error: {e}"
+        except Exception as e:
+            fired, err = [], f"crash: {type(e).__name__}: {e}"
+        dt = round(time.time() - t0, 2)
+        if err is not None and err.startswith("analysis-error"):
+            return {"id": vid, "kind": "break", "status": "analysis-error", "expect": prop + "-R*", "err": err, "s": dt}
+        return {"id": vid, "kind": "break", "status": "caught" if fired else "MISSED", "expect": prop + "-R*", "fired": fired, "detail": [], "err": err, "s": dt}
     if rel == "<whole-repo-twin>":
         from .twins import run_twin
 
@@ -73,6 +99,14 @@ def run_for(prop: str, base: Model) -> Dict[str, Any]:
 
     vs = [v for v in VARIANTS if v[0] == prop]
     vs += [(prop, "twin-" + k, "<whole-repo-twin>", k, "", None) for k in ("reformat", "rename-locals", "flip-comparisons", "insert-logging", "invert-if-else")]
+    # stored blind seeded changes of this property (applied in memory)
+    from .seeded import seeded_overrides
+
+    _SEEDED.clear()
+    for name, ov, why in seeded_overrides(prop, base.read_text):
+        vid = "seeded:" + name
+        _SEEDED[vid] = ov or {}
+        vs.append((prop, vid, "<seeded-change>", name, "", prop + "-R*"))
     _BASE = base
     t0 = time.time()
     results: List[Dict[str, Any]] = []
